@@ -520,3 +520,83 @@ func checkC12AddOption(c *Ctx, n int) {
 		c.Check("round-trip-reproduces-value-of-an-option-added-by-the-program", got == want, "C12:addoption", in, got, want)
 	}
 }
+
+type exIndirect struct {
+	P  *[]string       `long:"p"`
+	M  *map[string]int `long:"m"`
+	PP **[]int         `long:"pp"`
+	L  []string        `long:"l"`
+}
+
+// checkC12IndirectCollections: options whose field is a POINTER to a slice or map (also one added with AddOption,
+// whose value is the pointer the program handed in) are written one line per element / per key, and read back
+// element for element.
+func checkC12IndirectCollections(c *Ctx, n int) {
+	r := c.Rng
+	for i := 0; i < n; i++ {
+		var argv []string
+		var wantP, wantL, wantX []string
+		var wantPP []int
+		wantM := map[string]int{}
+		for k := r.Intn(4); k > 0; k-- {
+			v := []string{"a", "b c", " lead", "é"}[r.Intn(4)]
+			argv = append(argv, "--p="+v)
+			wantP = append(wantP, v)
+		}
+		for k := r.Intn(3); k > 0; k-- {
+			key := []string{"j", "k", "l"}[r.Intn(3)]
+			argv = append(argv, fmt.Sprintf("--m=%s:%d", key, k))
+			wantM[key] = k
+		}
+		for k := r.Intn(3); k > 0; k-- {
+			argv = append(argv, fmt.Sprintf("--pp=%d", k*7))
+			wantPP = append(wantPP, k*7)
+		}
+		for k := r.Intn(3); k > 0; k-- {
+			argv = append(argv, "--l=x", "--extra=e"+fmt.Sprint(k))
+			wantL = append(wantL, "x")
+			wantX = append(wantX, "e"+fmt.Sprint(k))
+		}
+		bits := flags.IniOptions(r.Intn(8) * 2)
+		mk := func(o *exIndirect, extra *[]string) *flags.Parser {
+			p := flags.NewParser(o, flags.None)
+			p.Command.Group.Find("Application Options").AddOption(&flags.Option{LongName: "extra"}, extra)
+			return p
+		}
+		var o1, o2 exIndirect
+		var x1, x2 []string
+		var text bytes.Buffer
+		var err1, err2 error
+		pan := safe(func() {
+			p := mk(&o1, &x1)
+			_, err1 = p.ParseArgs(argv)
+			flags.NewIniParser(p).Write(&text, bits)
+			p2 := mk(&o2, &x2)
+			err2 = flags.NewIniParser(p2).Parse(strings.NewReader(text.String()))
+		})
+		c.R.Evaluations++
+		show := func(o *exIndirect, x []string) string {
+			var p []string
+			if o.P != nil {
+				p = *o.P
+			}
+			m := map[string]int{}
+			if o.M != nil {
+				for k, v := range *o.M {
+					m[k] = v
+				}
+			}
+			var pp []int
+			if o.PP != nil && *o.PP != nil {
+				pp = **o.PP
+			}
+			return fmt.Sprintf("p=%q m=%v pp=%v l=%q extra=%q", p, m, pp, o.L, x)
+		}
+		got := fmt.Sprintf("panic=%v parse=%v read=%v %s", pan, err1, err2, show(&o2, x2))
+		want := fmt.Sprintf("panic=<nil> parse=<nil> read=<nil> p=%q m=%v pp=%v l=%q extra=%q", wantP, wantM, wantPP, wantL, wantX)
+		c.Distinct("c12indirect|" + strings.Join(argv, " ") + fmt.Sprint(int(bits)))
+		c.Class(fmt.Sprintf("c12/indirect-collections: write-options=%d", int(bits)))
+		in := map[string]interface{}{"declaration": "P *[]string, M *map[string]int, PP **[]int, L []string; --extra added with AddOption(&[]string)", "argv": argv, "ini_options": int(bits), "written_text": text.String()}
+		c.Check("round-trip-reproduces-value-of-a-pointer-to-a-collection", got == want, "C12:indirect-collections", in, got, want)
+	}
+}
